@@ -192,6 +192,10 @@ func charaterState(l *lexer) stateFn {
 		r = l.next()
 		switch r {
 		case '\'':
+			if l.next() != '\'' {
+				l.error("just can quote single char")
+				return nil
+			}
 			value += "'"
 			l.emitValue(Charater, value)
 		default:
